@@ -5,10 +5,10 @@ class C01(Prop):
     pid = "C01"
     check_mod = "C01"
     drivers = [dict(pkg="internal/auth", test="TestVerifC01")]
-    n_quick = 1500
+    n_quick = 1000
     n_thorough = 60000
-    shard = 150
-    ready = False
+    shard = 125
+    ready = True
     manifest = dict(
         text="Coq theorems, for ALL user lists, requests and oracle behaviours, over a Gallina transliteration of "
              "Manager.Authenticate (internal method), authenticateWithUser, matchesPermission, Credential.Check and "
